@@ -31,10 +31,13 @@ def ops_str(ops):
 
 
 def map_str(m):
+    if isinstance(m, NotImplementedError):
+        # the base-class get_deformation RETURNS (does not raise) a NotImplementedError instance
+        return 'ERR notimplemented'
     return ''.join(m[p] for p in 'XYZ')
 
 
-def sizes_for(ctx, cls, supported, salt):
+def sizes_for(ctx, cls, supported, salt, extra_sizes=()):
     """(size, tag) list: every cuboid size with all L_i <= 3 (4 in the thorough tier) that the
     family supports, a few random larger ones, and a few sizes outside the family (the model
     transcribes the code for every size, e.g. the dict overwrite at a period of 1)."""
@@ -58,6 +61,11 @@ def sizes_for(ctx, cls, supported, salt):
         seen.add(L)
         out.append((L, 'family-larger'))
         n_big -= 1
+    for L in extra_sizes:
+        L = tuple(L)
+        if L not in seen and supported(L):
+            seen.add(L)
+            out.append((L, 'family-larger'))
     return out + outside
 
 
@@ -113,7 +121,7 @@ def rank_post(klass):
     return post
 
 
-def streams_for(ctx, cls, supported, salt):
+def streams_for(ctx, cls, supported, salt, extra_sizes=(), with_rank=True):
     import panqec.codes as C
     klass = getattr(C, cls)
     rng = ctx.np_rng(salt + 1)
@@ -123,7 +131,7 @@ def streams_for(ctx, cls, supported, salt):
     s_attr = Stream(f'lat-{cls}-axis-type')
     s_def = Stream(f'lat-{cls}-get_deformation')
     s_rank = Stream(f'lat-{cls}-rank-family', post=rank_post(klass))
-    for size, tag in sizes_for(ctx, cls, supported, salt):
+    for size, tag in sizes_for(ctx, cls, supported, salt, extra_sizes):
         pre = f'lat {cls} ' + ' '.join(map(str, size))
         label = f'{cls}{tuple(size)}'
         try:
@@ -141,7 +149,7 @@ def streams_for(ctx, cls, supported, salt):
                   {'code': label, 'what': 'get_logicals_x'}, tag=tag)
         s_log.add(f'{pre} logz', guarded(lambda: ops_str(code.get_logicals_z())),
                   {'code': label, 'what': 'get_logicals_z'}, tag=tag)
-        if supported(size):
+        if with_rank and supported(size):
             nk = guarded(lambda: code.n - code.k)
             s_rank.add(f'{pre} rankfamily', f'members {nk} rank {nk}',
                        {'code': label, 'what': 'independent family of n-k generators (theorem rank_family) '
@@ -181,4 +189,4 @@ def streams_for(ctx, cls, supported, salt):
                     s_def.add(f'{pre} deform {name} {ax} {cstr(loc)}', guarded(call, ERR),
                               {'code': label, 'location': list(loc), 'name': name, 'axis': ax,
                                'what': 'get_deformation'}, tag=tag)
-    return [s.run() for s in (s_coord, s_stab, s_log, s_attr, s_def, s_rank)]
+    return [s.run() for s in (s_coord, s_stab, s_log, s_attr, s_def) + ((s_rank,) if with_rank else ())]
